@@ -198,8 +198,12 @@ def build_driver():
 
 
 def write_evidence(pid, ev):
-    os.makedirs(EVID, exist_ok=True)
-    with open(os.path.join(EVID, pid + ".json"), "w") as f:
+    # evidence/ only ever describes runs against /repo itself; a run against another tree (VERIF_REPO,
+    # used for seeded changes) is recorded under build/
+    d = EVID if os.path.realpath(common.REPO) == "/repo" else os.path.join(common.BUILD, "evidence_other_tree")
+    os.makedirs(d, exist_ok=True)
+    ev["repo"] = os.path.realpath(common.REPO)
+    with open(os.path.join(d, pid + ".json"), "w") as f:
         json.dump(ev, f, indent=1, sort_keys=True, default=str)
 
 
